@@ -229,6 +229,9 @@ Definition zset_remrange_rank (start0 stop0 : Z) (z : zsetv) : Z * zsetv :=
         zl := firstn (Z.to_nat i) l ++ skipn (Z.to_nat i + length removed)%nat l |}).
 
 (* ZIncrBy: None = result outside the modelled score domain *)
+(* ZIncrBy stores nothing when the sum is NaN *)
+Definition zset_zincrby_nan (m : bytes) (delta : score) (z : zsetv) : bool :=
+  match fm_get m (zd z) with Some old => score_add_nan delta old | None => false end.
 Definition zset_zincrby (m : bytes) (delta : score) (z : zsetv) : option (score * zsetv) :=
   let tot := match fm_get m (zd z) with
              | Some old => score_add delta old
